@@ -171,6 +171,9 @@ func LoadContracts(e *Engine, ld *Loaded, trustedDir string) ([]FuncTarget, []*L
 				return nil, nil, err
 			}
 			lemmas = append(lemmas, cf.Lemmas...)
+			for _, g := range cf.GhostFns {
+				e.GhostFns[g.Name] = g
+			}
 			for _, fc := range cf.Funcs {
 				fn := ResolveFunc(sp, fc.Key)
 				if fn == nil {
@@ -259,8 +262,12 @@ func (c *Checker) RunGoals(goals []*Goal, timeout time.Duration) []*ObligResult 
 		o := byName[x.g.Oblig]
 		if o == nil {
 			o = &ObligResult{Name: x.g.Oblig, Fn: x.g.Fn, Status: "discharged", Solver: map[string]int{}, Kind: "proof"}
-			if x.g.Expect == "sat" {
+			if x.g.Expect == "sat" || x.g.Expect == "sat-any" {
 				o.Kind = "cover"
+			}
+			if x.g.Expect == "sat-any" {
+				o.Status = "failed" // until one member is satisfiable
+				o.Fail, o.FailRes = x.g, x.r
 			}
 			byName[x.g.Oblig] = o
 			order = append(order, x.g.Oblig)
@@ -283,6 +290,16 @@ func (c *Checker) RunGoals(goals []*Goal, timeout time.Duration) []*ObligResult 
 				if o.Status == "discharged" {
 					o.Status = "undecided"
 					o.Fail, o.FailRes = x.g, x.r
+				}
+			}
+		} else if x.g.Expect == "sat-any" {
+			switch x.r.Status {
+			case "sat":
+				o.Status = "discharged"
+			case "unsat":
+			default:
+				if o.Status == "failed" {
+					o.Status = "undecided"
 				}
 			}
 		} else {
@@ -343,6 +360,14 @@ func lazyDecls(g *Goal) string {
 	var sb strings.Builder
 	for _, it := range root.LazyDecls {
 		fmt.Fprintf(&sb, "(declare-const %s %s)\n", it.Name, it.Sort.SMT())
+	}
+	var names []string
+	for n := range root.ghostDecls {
+		names = append(names, n)
+	}
+	sort.Strings(names)
+	for _, n := range names {
+		sb.WriteString(root.ghostDecls[n])
 	}
 	return sb.String()
 }
